@@ -46,6 +46,12 @@ theorem C09_iter_reads_published (x : Exec) (w s l r : x.E)
   · exact entry_chain x w s l r _ _ hws hs C09_orderings.1 hrf hl C09_orderings.2.2.2.2.1 hlr
   · exact entry_chain x w s l r _ _ hws hs C09_orderings.2.1 hrf hl C09_orderings.2.2.2.2.1 hlr
 
+/-- the program-order premise `po init cas` of the bucket-header certificates below is what the source says: in
+    `get_or_alloc` every non-atomic initialisation of the fresh bucket's `active` flags is sequenced before the
+    compare_exchange that publishes the bucket, and no such write is reachable on a bucket that may already be shared
+    (extracted from `src/boxcar.rs` on every run) -/
+theorem C09_bucket_init_precedes_publication : Gen.bucketInitBeforePublish = true := by decide
+
 /-- **the bucket header** (the `active` flags are initialised non-atomically by the allocating thread
     before it publishes the pointer): initialisation happens-before every access through a pointer that
     was loaded from `entries` — `get` (finding F10: this load was `Relaxed`) -/
